@@ -44,6 +44,28 @@ func (e *Engine) trustedCall(callee *ssa.Function, args []Val, st *State, reach 
 			return StrV{t}, true
 		}
 	}
+	if pkg == "math" && !e.bv() {
+		// float64 is treated as a mathematical real (assumption, listed in the evidence). math.Pow(b, x) is an
+		// uninterpreted function of its arguments of which only this is known: for b >= 1 and x >= 0 it is >= 1
+		// (or +Inf, which compares greater than every finite value: the same fact); math.IsInf is false on reals.
+		switch callee.Name() {
+		case "Pow":
+			if b, ok := args[0].(RealV); ok {
+				if x, ok := args[1].(RealV); ok {
+					e.declUF("uf_pow", "(Real Real) Real")
+					t := "(uf_pow " + b.T + " " + x.T + ")"
+					e.fact(imp(and("(>= "+b.T+" 1.0)", "(>= "+x.T+" 0.0)"), "(>= "+t+" 1.0)"))
+					e.trustedUsed["math.Pow(b, x) >= 1 for b >= 1, x >= 0 (float64 as real; overflow to +Inf compares the same way)"] = true
+					return RealV{t}, true
+				}
+			}
+		case "IsInf":
+			if _, ok := args[0].(RealV); ok {
+				e.trustedUsed["math.IsInf is false (float64 as real)"] = true
+				return BoolV{"false"}, true
+			}
+		}
+	}
 	if pkg == "strconv" && callee.Name() == "Itoa" && !e.bv() && len(args) == 1 {
 		// strconv.Itoa(n): the decimal digits of n (SMT-LIB str.from_int is defined for n >= 0; negative: "-" + digits)
 		if n, ok := args[0].(IntV); ok {
